@@ -1506,8 +1506,18 @@ where
             return;
         };
 
-        let props_types = self.extract_props_type(maybe_setup);
-        let emits_types = self.extract_emits_type(maybe_setup);
+        // an option the call already has is kept: don't derive it (deriving `props` may import
+        // `mergeDefaults`, which would then be left unused)
+        let props_types = if has_define_component_option(call_expr, "props") {
+            None
+        } else {
+            self.extract_props_type(maybe_setup)
+        };
+        let emits_types = if has_define_component_option(call_expr, "emits") {
+            None
+        } else {
+            self.extract_emits_type(maybe_setup)
+        };
         if let Some(prop_types) = props_types {
             inject_define_component_option(call_expr, "props", prop_types);
         }
@@ -1555,21 +1565,16 @@ fn merge_v_slots(props: &mut Vec<PropOrSpread>, slots: Option<Box<Expr>>) {
     }
 }
 
-fn inject_define_component_option(call: &mut CallExpr, name: &'static str, value: Expr) {
-    // with a spread among the first two arguments we can't tell which one is the options
-    if call.args.iter().take(2).any(|arg| arg.spread.is_some()) {
-        return;
-    }
-
+/// Does the options object literal of a `defineComponent` call define `name` itself?
+fn has_define_component_option(call: &CallExpr, name: &str) -> bool {
     let is_named = |key: &PropName| match key {
         PropName::Ident(ident) => ident.sym == name,
         PropName::Str(str) => str.value == name,
         _ => false,
     };
-
-    match call.args.get_mut(1).map(|options| &mut *options.expr) {
-        Some(Expr::Object(object)) => {
-            let defined = object.props.iter().any(|prop| match prop {
+    match call.args.get(1) {
+        Some(ExprOrSpread { spread: None, expr }) => match &**expr {
+            Expr::Object(object) => object.props.iter().any(|prop| match prop {
                 PropOrSpread::Prop(prop) => match &**prop {
                     Prop::Shorthand(ident) => ident.sym == name,
                     Prop::KeyValue(KeyValueProp { key, .. })
@@ -1578,7 +1583,22 @@ fn inject_define_component_option(call: &mut CallExpr, name: &'static str, value
                     _ => false,
                 },
                 PropOrSpread::Spread(..) => false,
-            });
+            }),
+            _ => false,
+        },
+        _ => false,
+    }
+}
+
+fn inject_define_component_option(call: &mut CallExpr, name: &'static str, value: Expr) {
+    // with a spread among the first two arguments we can't tell which one is the options
+    if call.args.iter().take(2).any(|arg| arg.spread.is_some()) {
+        return;
+    }
+
+    let defined = has_define_component_option(call, name);
+    match call.args.get_mut(1).map(|options| &mut *options.expr) {
+        Some(Expr::Object(object)) => {
             if !defined {
                 // keep the inferred option underneath anything a spread or a computed
                 // key of the user's literal may supply
